@@ -18,6 +18,7 @@ def J(test, quick, thorough, shards=1, **kw):
 PROPS = {}
 
 PROPS["C14"] = dict(
+    technique="stateful model-based testing (rapid): byte-offset model against an RFC 8439 keystream oracle, every restore offset enumerated",
     title="ChaCha20 PRG equals the RFC 8439 keystream; Store/Restore resumes exactly",
     rule=("rapid-generated histories over one PRG (Read of sizes 0/1/≤64/>64/aligned/unaligned/large, Store+Restore, fork, UintN, "
           "Permutation, Samples) checked step by step against an independent RFC 8439 keystream oracle (model = byte offset); "
@@ -33,6 +34,7 @@ PROPS["C14"] = dict(
 )
 
 PROPS["C13"] = dict(
+    technique="property-based testing (rapid): stateful model of hasher streams + exhaustive length x split enumeration against from-spec Keccak / SHA-2 / KMAC",
     title="Hashers and KMAC128 equal their standards for all inputs and chunkings",
     rule=("(1) enumeration: for each algorithm every message length 0..2·rate (thorough 0..4·rate) through ComputeHash on a dirty object and "
           "through Reset + a generated chunk pattern + SumHash, plus every two-way split for short lengths (thorough: all lengths ≤ 2·rate); "
@@ -55,6 +57,7 @@ BLS_ASSUME = ["oracle/bls381 (math/big group arithmetic + ZCash codec) is truste
               "G2 encodings are compared through the codec calibrated on Encode(sk=1) (finding F1 is C05's subject)"]
 
 PROPS["C01"] = dict(
+    technique="property-based testing (rapid): differential against a math/big BLS12-381 oracle over structured candidate signatures",
     title="BLS Verify accepts exactly the one signature sk*H(m) per key, message, hasher",
     rule=("per case: a key (decoded from a structured scalar pool / generated / aggregated), a message, a hasher (KMAC128 expand-message with generated tag or a scripted 128-byte output with halves in {0,1,p-1,p,p+1,2^384,2^512-1,random}); "
           "the oracle computes sk·H(m) and ~25 candidate strings (exact, bit flips, negation, s+T with T of order 3/11/random cofactor torsion, s+k·G, x+p, all flag combinations, infinity variants, length 0..200, curve point outside G1, random G1 point, "
@@ -68,6 +71,7 @@ PROPS["C01"] = dict(
 )
 
 PROPS["C02"] = dict(
+    technique="property-based testing (rapid): oracle-computed pairing-product definition via known discrete logs + metamorphic order/repetition invariance",
     title="Aggregate BLS verification equals the pairing-product definition",
     rule=("n positions (1..12, thorough to 40) filled from a pool of k keys and m (message, hasher) pairs through named shapes (all-distinct, all-equal, few-messages/many-keys, few-keys/many-messages, tie, duplicated pairs, pk and -pk on one message, "
           "same point in separately decoded key objects, identity key injected); oracle Σ sk_i·H_i(m_i) by big-integer arithmetic; ~25 candidate signatures per case; each call repeated 3× (Go map order) and on a permutation of the triples; "
@@ -77,10 +81,12 @@ PROPS["C02"] = dict(
         J("TestC02_ManyMessages", 120, 1200, shards=12),
         J("TestC02_OneMessage", 120, 1200, shards=3),
         J("TestC02_Errors", 200, 1500, shards=1),
+        J("TestC02_ManyMessages", 0, 300, shards=2, mode="asan", tiers=("thorough",)),
     ],
 )
 
 PROPS["C03"] = dict(
+    technique="property-based testing (rapid) + exhaustive subset enumeration: index-wise differential against individual verification and an oracle",
     title="Batch verification agrees index-by-index with individual verification",
     rule=("positions on one message, each valid or invalid by a generated kind (swapped pair, s_i+d with s_j-d, three-way cancellation, bit flip, s+T outside G1, identity signature, wrong length, identity key, other message, negated, malformed); "
           "expected[i] := signature bytes equal the oracle's sk_i·H(m) and key not identity; checked against BatchVerify and (generated job) against Verify; all 2^n subsets of invalid positions for n ≤ 4 (thorough n ≤ 7); input-error cases. "
@@ -94,6 +100,7 @@ PROPS["C03"] = dict(
 )
 
 PROPS["C04"] = dict(
+    technique="property-based testing (rapid): algebraic homomorphism laws checked against big-integer group arithmetic",
     title="Key and signature aggregation are mutually consistent group homomorphisms",
     rule=("multisets of 1..10 private scalars (duplicates, additive inverses, zero sums), a message and hasher, a generated permutation and binary nesting, a split A⊎B for removal; oracle Σsk mod r, (Σsk)·g2, (Σsk)·H(m); "
           "plus plain E1 sums with operands outside G1, plus error inputs. Non-trivial = size ≥ 3 with a duplicate, inverse pair, nesting depth ≥ 2 or identity sum; distinct by draw-record hash."),
@@ -106,6 +113,7 @@ PROPS["C04"] = dict(
 )
 
 PROPS["C05"] = dict(
+    technique="property-based testing (rapid) with structured near-valid generators + finite enumerations + coverage-guided libFuzzer targets with round-trip / BLST-differential oracles",
     title="Serialization is canonical and validating for every key and signature type",
     rule=("per decoder (BLS private / public / signature parsing in aggregation and Verify; ECDSA private / raw public / compressed public on both curves) near-valid strings: encodings of library-produced objects and of oracle-built points "
           "(subgroup, curve-but-not-subgroup, cofactor torsion, small order, infinity) mutated by bit flips, flag-bit combinations, coordinates from {0,1,2,p-1,p,p+1,2^381-1,2^384-1}, x+p aliases, non-residue x, dirty infinity at every position, "
@@ -129,6 +137,7 @@ PROPS["C05"] = dict(
 )
 
 PROPS["C06"] = dict(
+    technique="property-based testing (rapid) + exhaustive signer-subset enumeration against Lagrange interpolation over F_r and G1",
     title="Threshold shares reconstruct the unique group signature for any >= t+1 signers",
     rule=("(n, t) from 2..254 (biased to n ≤ 12, always including t+1 around 8/9/16/17 and n = 254), seed, message, tag; the dealer output is checked by finite differences (all n private shares on one polynomial of degree exactly t), "
           "P(0)·g2 = group key and sk_i·g2 = pk_i by the oracle; expected signature := compress(P(0)·H(m)); signer subsets of size ≥ t+1 in ascending / descending / interleaved / random order through the stateless function and through a generated "
@@ -146,6 +155,7 @@ PROPS["C06"] = dict(
 )
 
 PROPS["C11"] = dict(
+    technique="property-based testing (rapid): complete differential against a generic-Weierstrass ECDSA oracle, incl. keys crafted for non-reduced aliases",
     title="ECDSA verification is exact on P-256 and secp256k1 for every hasher",
     rule=("a case draws the curve, a key (generated from a seed or decoded from scalars 1, 2, n-1, n-2, small, 2^k, leading-zero-byte values, scalars whose public x or y has a leading zero byte, random), a message of 0..300 bytes and a hasher "
           "(SHA2-256/384, SHA3-256/384, Keccak-256, KMAC128 with generated key/customizer/size 32..64, or a scripted hasher whose first 32 bytes are 0, 1, n-1, n, n+1, 2^256-1 or random). Candidates: the library signature; r or s in {0, n, n+1, 2^256-1}; "
@@ -162,6 +172,7 @@ PROPS["C11"] = dict(
 )
 
 PROPS["C12"] = dict(
+    technique="property-based testing (rapid) + exhaustive seed-length enumeration: differential against from-spec HKDF / KeyGen oracles",
     title="Key generation is a fixed, in-range, deterministic function of the seed",
     rule=("algorithm in {BLS12-381, P-256, secp256k1}; seed length classes 32..64, 65..256, boundaries {31,32,33,255,256,257}, 0..31, 257..300 with contents all-zero / all-0xff / generated (nil allowed at length 0); "
           "expected private key bytes from the oracle derivation (IETF BLS KeyGen / HKDF-SHA256 to 48 bytes mod (n-1) + 1, on the oracle's own SHA-256/HMAC/HKDF); determinism, seed unmodified, range; out-of-range lengths give (nil, invalid-inputs). "
@@ -177,6 +188,7 @@ PROPS["C12"] = dict(
 )
 
 PROPS["C15"] = dict(
+    technique="exhaustive tape enumeration (all source reads for every n <= 2^16, all accepted tapes for n <= 8) injected in-package, plus rapid histories against a keystream model",
     title="Sampling helpers are in range, valid and exactly uniform in the PRG's bits",
     rule=("(1) in-package (go test -overlay into package random, /repo untouched), under the tape model (one attempt = ceil(bitlen(n-1)/8) source bytes, little-endian, masked to bitlen(n-1) bits, rejected if > n-1): for every n <= VERIF_N (quick 4096, thorough every n <= 65536) "
           "UintN(n) is run on every possible first source read (256 or 65 536 tapes) and, after one rejected first read, on every possible second read: result < n, acceptance iff masked value <= n-1, result = masked value, every value hit by exactly 256^size/2^bitlen reads at both levels, "
@@ -196,6 +208,7 @@ PROPS["C15"] = dict(
 )
 
 PROPS["C20"] = dict(
+    technique="differential testing across four build configurations driven by rapid-generated operations and DKG transcripts",
     title="Results do not depend on the build configuration",
     rule=("each case generates one operation with generated valid and invalid inputs and sends the identical request line to worker programs built from the current tree as default (ADX), CGO_CFLAGS='-O2 -D__BLST_PORTABLE__', -tags purego and CGO_ENABLED=0 -tags no_cgo "
           "(BLS-dependent operations go only to the three cgo builds); the answer lines must be byte-identical, and a worker that dies or answers malformed JSON while another answers is a disagreement. Operations: hashes with a split, KMAC128, ChaCha20 PRG reads and samples, key generation / decoding, "
@@ -210,6 +223,7 @@ PROPS["C20"] = dict(
 )
 
 PROPS["C16"] = dict(
+    technique="property-based testing (rapid): differential against oracle sk*H_pop(pk) with crafted domain tags",
     title="Proofs of possession are sound and domain-separated from every signature",
     rule=("keys from the structured pool; the PoP hasher is rebuilt independently from the documented suite string (and its KMAC output cross-checked with the SP 800-185 oracle); expected PoP := compress(sk·H_pop(pk bytes)); ~25 candidate strings plus another key's PoP; "
           "three kinds of identity key; for generated and crafted tags (empty, long, every prefix/suffix of the two suite strings, the PoP suite itself, tags making tag||SIG-suite share a prefix or suffix with the PoP suite) the signature of the public-key bytes (and of a generated message) "
@@ -219,6 +233,7 @@ PROPS["C16"] = dict(
 )
 
 PROPS["C17"] = dict(
+    technique="property-based testing (rapid): verdict predicted from known discrete logs (a*x2 = b*x1), symmetry metamorphic relation",
     title="SPoCK verification holds exactly for proofs of one message under claimed keys",
     rule=("scalars x1, x2 (equal, negated, distinct), base B = H(data) via sk = 1, proofs p1 = a·B, p2 = b·B' built by the oracle with (a, b) honest, scaled by a common factor, attributed to the wrong key, zero, unrelated, off by one; B' = B or the image of other data; "
           "expected verdict := a·x2 ≡ b·x1 (mod r) on one base, both-identity on independent bases; each pair also swapped; the first proof replaced by ~25 structured candidates (non-canonical / outside G1 must be rejected); identity keys; SPOCKProve = Sign and SPOCKVerifyAgainstData = Verify; non-BLS keys and bad hashers give typed errors. "
@@ -233,6 +248,7 @@ DKG_RULE = ("one network simulator (harness/sim): protocol in {Feldman-VSS-Qual 
             "The scheduler delivers the (message, receiver) pairs of a round in a generated order (broadcasts of one sender stay ordered per receiver; reactions join the round; every pool is drained before the timeouts; timeouts and End in generated orders). ")
 
 PROPS["C07"] = dict(
+    technique="model-based fault-injection simulation driven by rapid (generated schedules and Byzantine fault grammar), agreement invariants",
     title="DKG: honest participants agree on the verdict and on consistent keys",
     rule=DKG_RULE + ("Invariant after End at every honest participant: identical sets of disqualified dealers, identical outcome (all DKG-failure or identical group key and public key shares), private share matches public share, "
           "(every 5th case, always in thorough) group key and all public shares on one polynomial of degree <= t by Lagrange interpolation in G2 with the oracle, and t+1 honest participants reconstruct a signature valid under the group key. "
@@ -242,6 +258,7 @@ PROPS["C07"] = dict(
 )
 
 PROPS["C08"] = dict(
+    technique="model-based fault-injection simulation driven by rapid (fairness invariants and converse triggers) + exhaustive delivery-order enumeration for plain VSS",
     title="DKG qualification is fair: honest never blamed, bad dealing never accepted",
     rule=DKG_RULE + ("Invariants: (e) no Disqualify / FlagMisbehavior callback at an honest reporter targets an honest participant; (f) a Byzantine dealer whose vector was omitted, late or malformed (confirmed invalid by the oracle), who attracted more than t distinct complaints before the second timeout, "
           "or who left an honest complaint unanswered or answered it with a value not matching its vector, is disqualified by every honest participant; (g) plain Feldman VSS: every delivery order of (vector, share, one duplicate of each) x every kind of vector and share: End returns keys iff the first vector is valid (oracle) and the first share is well-formed and matches it, otherwise a DKG-failure error. "
@@ -251,6 +268,7 @@ PROPS["C08"] = dict(
 )
 
 PROPS["C10"] = dict(
+    technique="stateful model-based testing (rapid): reference state machine + metamorphic non-interference twin",
     title="DKG instances follow the documented single-use state machine",
     rule=("protocol x role (dealer / non-dealer) x (n <= 5, t); a call sequence of up to 25 (thorough 40) calls over {Start, NextTimeout, End, HandleBroadcastMsg, HandlePrivateMsg, ForceDisqualify, Running} with in-range origins and out-of-range ones (-1, n, n+1, 255, 256, 2^20, -2^31), "
           "payloads taken from real instances run with the same parameters (so End can succeed) or junk. Oracle 1: a reference model of the documented machine (new / running(k timeouts) / ended) predicts the error class of every call and Running(). "
@@ -261,6 +279,7 @@ PROPS["C10"] = dict(
 )
 
 PROPS["C09"] = dict(
+    technique="property-based robustness testing (rapid, hostile argument generators, journalled calls) + libFuzzer with ASan/UBSan on the C layer",
     title="No exported function panics or corrupts memory on untrusted input",
     rule=("a table of the exported surface (decoders, key generation, Sign/Verify, PoP, SPoCK, the four aggregations, one/many-message and batch verification, threshold key generation / stateless reconstruction / inspector and participant methods, DKG constructors and every DKGState method fed with arbitrary (origin, tag, payload) "
           "sequences incl. real payloads mutated, enum and key String(), hashers and KMAC constructor, ChaCha20 PRG constructors and every Rand method, error predicates) with an argument generator per parameter kind: byte slices nil / empty / 1 short / exact / 1 long / 10 000 / valid / valid with one byte changed / all 0xff; "
@@ -269,6 +288,7 @@ PROPS["C09"] = dict(
     assumptions=["documented exceptions are excluded by construction: UintN(0), nil interface / callback arguments, permutation and KMAC sizes above 2^20, PRG positions beyond the documented 256 GiB stream, hashers whose ComputeHash returns fewer bytes than Size() claims, the no_cgo build",
                  "Go's -asan does not see over-reads that stay inside a slice's capacity; memory safety of the C layer on arbitrary bytes is the subject of the libFuzzer targets in cfuzz/ (when built) and of the semantic oracles of C05/C06"],
     jobs=[J("TestC09_Calls", 3000, 20000, shards=12, journal=True), J("TestC09_Regressions", 1, 1, journal=True), J("TestC09_DKGNetwork", 500, 2500, shards=4, journal=True),
+          J("TestC09_Calls", 0, 3000, shards=4, journal=True, mode="asan", tiers=("thorough",)),
           J("cfuzz:SUM_VECTOR", 30000, 90, kind="cfuzz", target="SUM_VECTOR"),
           J("cfuzz:LAGRANGE", 40000, 90, kind="cfuzz", target="LAGRANGE"),
           J("cfuzz:G2_VECTOR", 30000, 90, kind="cfuzz", target="G2_VECTOR"),
